@@ -134,7 +134,12 @@ def gen_index(rng, m, faulty):
     if faulty and rng.random() < 0.3:
         v.insert(rng.randint(0, len(v)), oob_value(rng, n) if rng.random() < 0.7 else rng.choice([n, -n - 1]))
     big = any(abs(x) > INT32_MAX for x in v)
-    return {"t": "arr" if rng.random() < 0.85 or big else "list", "v": v, "dtype": rng.choice(["int64", "int64", "int32"]) if not big else "int64"}
+    dtypes = ["int64", "int64", "int32"]
+    if all(0 <= x < 128 for x in v):
+        dtypes += ["uint8", "uint32", "uint64", "int16", "int8"]
+    elif all(-128 <= x < 128 for x in v):
+        dtypes += ["int16", "int8"]
+    return {"t": "arr" if rng.random() < 0.85 or big else "list", "v": v, "dtype": rng.choice(dtypes) if not big else "int64"}
 
 
 def generate(rng):
